@@ -1,0 +1,8 @@
+//go:build verif
+
+package gfio
+
+//@ # opening the files named on the command line: outside the contracts (os.Open / os.Create, *fs.PathError type switch);
+//@ # callers see an arbitrary (file, error) pair
+//@ func OpenIn trusted
+//@ func OpenOut trusted
